@@ -237,6 +237,15 @@ WriteTombstoneWithXattrsOut(a, d, n) ==
     ELSE {Mut(PostX(d, n, NoBody, FALSE, base, a.sets, a.dels, a.exp))
              : base \in (IF HasBody(d) THEN {SysOnly(d.xa)} ELSE {SysOnly(d.xa), d.xa})}
 
+(* UpdateXattrDeleteBody: set one xattr and delete the body in one step (the result is a tombstone) *)
+UpdateXattrDeleteBodyOut(a, d, n) ==
+    IF ~AnySet(a.sets) THEN Wild(d)
+    ELSE IF IsAbsent(d) THEN
+        (IF a.cas = 0 THEN {Mut(PostX(d, n, NoBody, FALSE, NoXa, a.sets, NoDels, a.exp))} ELSE Unch(d, RefCas))
+    ELSE IF a.cas # d.cas THEN Unch(d, RefCas)
+    ELSE {Mut(PostX(d, n, NoBody, FALSE, base, a.sets, NoDels, a.exp))
+             : base \in (IF HasBody(d) THEN {SysOnly(d.xa)} ELSE {SysOnly(d.xa), d.xa})}
+
 WriteResurrectionWithXattrsOut(a, d, n) ==
     IF ~a.hasbody THEN ArgErr(d)
     ELSE IF HasBody(d) THEN Unch(d, RefCas)
@@ -328,7 +337,7 @@ BodyWriters == {"Set", "SetRaw", "Add", "AddRaw", "WriteCas", "Update", "Incr"}
 
 SizeChecked == {"Set", "SetRaw", "Add", "AddRaw", "WriteCas", "Update", "SetXattrs", "UpdateXattrs", "WriteWithXattrs",
                 "WriteTombstoneWithXattrs", "WriteResurrectionWithXattrs", "WriteUpdateWithXattrs"}
-XattrValidated == {"SetXattrs", "UpdateXattrs", "WriteWithXattrs", "WriteTombstoneWithXattrs",
+XattrValidated == {"UpdateXattrDeleteBody", "SetXattrs", "UpdateXattrs", "WriteWithXattrs", "WriteTombstoneWithXattrs",
                    "WriteResurrectionWithXattrs", "WriteUpdateWithXattrs"}
 
 Outcomes(op, a, d, n) ==
@@ -357,6 +366,7 @@ Outcomes(op, a, d, n) ==
       [] op = "WriteResurrectionWithXattrs" -> WriteResurrectionWithXattrsOut(a, d, n)
       [] op = "WriteUpdateWithXattrs"       -> WriteUpdateWithXattrsOut(a, d, n)
       [] op = "DeleteWithXattrs" -> DeleteWithXattrsOut(a, d, n)
+      [] op = "UpdateXattrDeleteBody" -> UpdateXattrDeleteBodyOut(a, d, n)
       [] op = "SetWithMeta"    -> WithMetaOut(a, d, FALSE)
       [] op = "DeleteWithMeta" -> WithMetaOut(a, d, TRUE)
       [] op = "WriteSubDoc"    -> SubdocWriteOut(a, d, n, FALSE)
@@ -368,10 +378,10 @@ Outcomes(op, a, d, n) ==
 
 (* Which listed properties a deviation of `op` from Outcomes is filed      *)
 (* under (besides C01, which every operation is subject to).               *)
-Conditional == {"WriteCas", "Remove", "WriteWithXattrs", "WriteTombstoneWithXattrs", "UpdateXattrs",
+Conditional == {"UpdateXattrDeleteBody", "WriteCas", "Remove", "WriteWithXattrs", "WriteTombstoneWithXattrs", "UpdateXattrs",
                 "RemoveXattrs", "SetWithMeta", "DeleteWithMeta", "WriteSubDoc", "SubdocInsert"}
 Inserters == {"Add", "AddRaw", "WriteResurrectionWithXattrs"}
-XattrOps  == {"SetXattrs", "UpdateXattrs", "RemoveXattrs", "DeleteSubDocPaths", "WriteWithXattrs",
+XattrOps  == {"UpdateXattrDeleteBody", "SetXattrs", "UpdateXattrs", "RemoveXattrs", "DeleteSubDocPaths", "WriteWithXattrs",
               "WriteTombstoneWithXattrs", "WriteResurrectionWithXattrs", "WriteUpdateWithXattrs",
               "DeleteWithXattrs"}
 SubdocOps == {"WriteSubDoc", "SubdocInsert", "GetSubDocRaw"}
